@@ -99,6 +99,9 @@ struct G<'r> {
     hostility: u32,
     /// a host import placed in the table (call_indirect to an imported function)
     import_slot: Option<(&'static HostFn, u32)>,
+    /// Separated only: memory.grow amounts come from *data* (same path, different operand values);
+    /// memory.size is then a data value
+    dat_grow: bool,
 }
 
 struct Fx {
@@ -189,7 +192,7 @@ impl<'r> G<'r> {
         match self.rng.below(10) {
             0..=4 if !locals.is_empty() => format!("(local.get {})", locals[self.rng.usize_below(locals.len())]),
             5 | 6 if !globals.is_empty() => format!("(global.get {})", globals[self.rng.usize_below(globals.len())]),
-            7 if ty == T::I32 && !(self.separated() && fx.loop_depth > 0 && taint == Taint::Ctl) => {
+            7 if ty == T::I32 && !(self.separated() && fx.loop_depth > 0 && taint == Taint::Ctl) && !(self.dat_grow && taint == Taint::Ctl) => {
                 self.feat("memory.size");
                 "(memory.size)".into()
             }
@@ -641,6 +644,15 @@ impl<'r> G<'r> {
                 if self.separated() && !(fx.is_top && fx.loop_depth == 0) {
                     return "(nop)".into();
                 }
+                if self.dat_grow {
+                    self.feat("memory.grow-by-data-amount");
+                    let e = self.expr(fx, T::I32, Taint::Dat, 2);
+                    let amt = format!("(i32.and {e} (i32.const 1))");
+                    return match self.pick_writable(fx, T::I32, Taint::Dat) {
+                        Some(v) if self.rng.bool() => format!("(local.set {} (memory.grow {amt}))", v.name),
+                        _ => format!("(drop (memory.grow {amt}))"),
+                    };
+                }
                 self.feat("memory.grow");
                 let amt = match self.rng.below(4) {
                     0 => "(i32.const 1)".to_string(),
@@ -838,7 +850,8 @@ impl<'r> G<'r> {
 
 pub fn generate(rng: &mut Rng, fl: Flavour) -> Program {
     let hostility = rng.below(3) as u32;
-    let mut g = G { rng, fl, funcs: vec![], globals: vec![], const_globals: vec![], imports: vec![], table_size: 0, label_n: 0, features: Default::default(), hostility, import_slot: None };
+    let mut g = G { rng, fl, funcs: vec![], globals: vec![], const_globals: vec![], imports: vec![], table_size: 0, label_n: 0, features: Default::default(), hostility, import_slot: None, dat_grow: false };
+    g.dat_grow = fl == Flavour::Separated && g.rng.bool();
     let sep = g.separated();
     // ---- imports
     if g.rng.chance(2, 3) {
